@@ -13,6 +13,7 @@ From GT Require Import Base.UTree Model.Reroot Model.Prune Model.Collapse Model.
      Proofs.HeapPruneTree Proofs.HeapPruneSq Proofs.HeapRotateSq Proofs.HeapLoopsTotal Proofs.HeapHistory
      Model.HeapEdit2 Proofs.HeapCtx Proofs.HeapSortSq Proofs.HeapSingle Proofs.HeapSingleSq.
 From GT Require Model.LocalEdit.
+From GT Require Import Proofs.HeapEdgesSeq Proofs.HeapEdgesSq Proofs.HeapTipsLoop.
 Import ListNotations.
 Local Close Scope Q_scope.
 Local Open Scope string_scope.
@@ -600,7 +601,8 @@ Print Assumptions C03Heap_run_hop_square.
 
 (** any history over {Reroot, reroot_nocheck, UnRoot, GraftTipOnEdge, RemoveEdges(one branch),
     nni.Apply, removeTip(by name), RotateInternalNodes, SortNeighborsByTips, RemoveSingleNodes,
-    the k-th NNI proposal applied (and undone)}: the heap stays good and represents
+    the k-th NNI proposal applied (and undone), RemoveEdges on a list of branches,
+    CollapseShortBranches, CollapseLowSupport}: the heap stays good and represents
     the tree the same history gives on the tree model *)
 Theorem C03Heap_history : forall ops h t h', Good h -> abs h = Some t -> run_heap ops h = HOk h' ->
   Good h' /\ exists t', run_tree ops t = Ok t' /\ abs h' = Some t' /\ wf t' = true.
@@ -612,7 +614,9 @@ Theorem C03Heap_history_links : forall t,
   (forall i, run_hop_tree (HReroot i) t = run_op (OReroot i) t) /\ run_hop_tree HUnroot t = run_op OUnroot t /\
   (forall cs, run_hop_tree (HRotate cs) t = run_op (ORotate cs) t) /\
   run_hop_tree HSort t = run_op OSort t /\ run_hop_tree HRmSingle t = run_op ORmSingle t /\
-  (forall k undo, run_hop_tree (HNni k undo) t = run_op (ONni k undo) t).
+  (forall k undo, run_hop_tree (HNni k undo) t = run_op (ONni k undo) t) /\
+  (forall l rr rt, run_hop_tree (HCollapseLen l rr rt) t = run_op (OCollapseLen l rr rt) t) /\
+  (forall s rr, run_hop_tree (HCollapseSup s rr) t = run_op (OCollapseSup s rr) t).
 Proof. intros t. repeat split; reflexivity. Qed.
 Print Assumptions C03Heap_history_links.
 
@@ -674,3 +678,98 @@ Example C03Heap_run_mixed_history2 :
   end = true.
 Proof. vm_compute. reflexivity. Qed.
 Print Assumptions C03Heap_run_mixed_history2.
+
+(** * Round 5 *)
+
+(** RemoveEdges on a list, on labelled trees: the one-pass function of Model/Collapse.v, written
+    with a selection by branch id ([lremove]), is the succession of the single contractions
+    ([lstep], found by branch id), in Edges() order.  (Positions in Edges() are not simply
+    shifted by a contraction: the children of the contracted node go to the END of the
+    neighbour array, so later branches change place; branch ids are stable.) *)
+Theorem C03Heap_lremove_fold : forall rr rt lt, NoDup (leids lt) -> forall todo done,
+  filter (selL (done ++ todo)) (leids lt) = (done ++ todo)%list ->
+  lremove rr rt (selL (done ++ todo)) lt = fold_left (fun t e => lstep rr rt e t) todo (lremove rr rt (selL done) lt).
+Proof. exact lremove_fold. Qed.
+Print Assumptions C03Heap_lremove_fold.
+
+(** adding to the selection a branch that comes after all the selected ones = one more contraction *)
+Theorem C03Heap_lremove_last : forall rr rt sel e t, LastT sel e t -> NoDup (leids t) -> sel e = false ->
+  lremove rr rt (sel_add sel e) t = lstep rr rt e (lremove rr rt sel t).
+Proof. exact lremove_last. Qed.
+Print Assumptions C03Heap_lremove_last.
+
+(** the loop of RemoveEdges over the selected branches [es] (in Edges() order): the square
+    against [remove_edges] for ANY index-based selection that designates exactly [es] *)
+Theorem C03Heap_remove_edges_list_square : forall rr rt selidx es h lt, Rep h lt ->
+  filter (selL es) (leids lt) = es ->
+  (forall j x e c, nth_error (leids lt) j = Some x -> selidx j e c = selL es x) ->
+  exists h', remove_edges_heap rr rt es h = HOk h' /\ Good h' /\ abs h' = Some (remove_edges rr rt selidx (erase lt)).
+Proof. exact remove_edges_heap_square. Qed.
+Print Assumptions C03Heap_remove_edges_list_square.
+
+Theorem C03Heap_remove_edges_idx_square : forall rr rt idx h t, Good h -> abs h = Some t ->
+  exists lt h', dump h = Some lt /\ remove_edges_heap rr rt (ids_at idx (leids lt)) h = HOk h' /\ Good h' /\
+    abs h' = Some (remove_edges_idx rr rt idx t).
+Proof. exact remove_edges_idx_heap_square. Qed.
+Print Assumptions C03Heap_remove_edges_idx_square.
+
+(** closed runs: every pair of positions of two trees, both flags; and a history with lists *)
+Definition chk_edges_list (t : utree) (rr rt : bool) (idx : list nat) : bool :=
+  match run_hop_heap (HRemoveEdges rr rt idx) (heap_of t) with
+  | HOk h' => abs_is h' (remove_edges_idx rr rt idx t)
+  | _ => false
+  end.
+Example C03Heap_run_remove_edges_list :
+  forallb (fun t => forallb (fun i => forallb (fun j => chk_edges_list t false false [i; j] && chk_edges_list t true true [j; i]) (seq 0 9)) (seq 0 9))
+          [hx_deep; rr_at hx_deep 3; hx_chain] = true /\
+  chk_edges_list hx_deep true false [0; 1; 2; 3; 4; 5; 6; 7; 8] = true /\
+  let ops := [HRemoveEdges false false [2; 5]; HReroot 1; HRemoveEdges true true [0; 1; 3]; HSort] in
+  match run_heap ops (heap_of hx_deep), run_tree ops hx_deep with
+  | HOk h', Ok t' => abs_is h' t'
+  | _, _ => false
+  end = true.
+Proof. vm_compute. repeat split; reflexivity. Qed.
+Print Assumptions C03Heap_run_remove_edges_list.
+
+(** the same for a selection on the data of the branches: CollapseShortBranches and
+    CollapseLowSupport (the loop over Edges() that builds the list, then RemoveEdges) *)
+Theorem C03Heap_remove_edges_where_square : forall rr rt (g : einfo -> bool) h t, Good h -> abs h = Some t ->
+  exists lt h', dump h = Some lt /\ remove_edges_heap rr rt (ids_where g lt) h = HOk h' /\ Good h' /\
+    abs h' = Some (remove_edges rr rt (fun _ e _ => g e) t).
+Proof. exact remove_edges_where_square. Qed.
+Print Assumptions C03Heap_remove_edges_where_square.
+
+Example C03Heap_run_collapse :
+  forallb (fun ops => match run_heap ops (heap_of hx_deep), run_tree ops hx_deep with
+                      | HOk h', Ok t' => abs_is h' t'
+                      | _, _ => false
+                      end)
+          [[HCollapseLen 1 false false]; [HCollapseLen 2 true true]; [HCollapseSup (1#2) false]; [HCollapseSup 1 true];
+           [HReroot 1; HCollapseLen 1 true false; HCollapseSup 1 false; HRmSingle; HSort]] = true /\
+  (* the selections are not empty *)
+  ids_where (sel_len 1) (match dump (heap_of hx_deep) with Some lt => lt | None => LNode 0 "" [] [] end) <> [] /\
+  ids_where (sel_sup 1) (match dump (heap_of hx_deep) with Some lt => lt | None => LNode 0 "" [] [] end) <> [].
+Proof. vm_compute. repeat split; try reflexivity; discriminate. Qed.
+Print Assumptions C03Heap_run_collapse.
+
+(** the by-pointer loop of Tree.RemoveTips (with its per-tip check `len(tip.neigh) != 1`) keeps
+    the heap good; on the test trees it agrees with the by-name loop of Model/Prune.v, error
+    messages included (closed runs; the general square is not proved) *)
+Theorem C03Heap_remove_tips_by_pointer_good : forall revert names h h', Good h ->
+  remove_tips_by_pointer_heap revert names h = HOk h' -> Good h'.
+Proof. exact remove_tips_by_pointer_heap_good. Qed.
+Print Assumptions C03Heap_remove_tips_by_pointer_good.
+
+Definition chk_tips_loop (t : utree) (revert : bool) (names : list string) : bool :=
+  match remove_tips_by_pointer_heap revert names (heap_of t), remove_loop revert names (tip_names t) t with
+  | HOk h', Ok t' => abs_is h' t'
+  | HErr m, Err m' => String.eqb m m'
+  | _, _ => false
+  end.
+Example C03Heap_run_remove_tips_loop :
+  forallb (fun t => forallb (fun p => chk_tips_loop t (fst p) (snd p))
+             [(false, ["a"]); (false, ["a"; "c"; "e"]); (true, ["a"; "b"; "c"]); (false, ["a"; "b"; "c"; "d"]);
+              (true, ["f"]); (false, ["a"; "b"; "c"; "d"; "e"; "f"]); (true, []); (false, ["c"; "d"]); (false, ["zz"])])
+          [hx_deep; rr_at hx_deep 1; rr_at hx_deep 3; hx_chain; hx_two] = true.
+Proof. vm_compute. reflexivity. Qed.
+Print Assumptions C03Heap_run_remove_tips_loop.
